@@ -15,6 +15,7 @@ let () =
           | "xp" -> ("UNSUP", "-")     (* crash-freedom stream: implementation only *)
           | "pool" -> Pool_drv.run (Array.sub toks 1 (Array.length toks - 1))
           | "c1" -> Xs_drv.run_c1 (Array.sub toks 1 (Array.length toks - 1))
+          | "c1c" -> Xs_drv.run_c1c (Array.sub toks 1 (Array.length toks - 1))
           | "xf" -> Xs_drv.run ~flocq:true (Array.sub toks 1 (Array.length toks - 1))
           | k -> ("UNKNOWN-KIND " ^ k, "-")
         with e -> ("MODEL-EXN " ^ Printexc.to_string e, "-")
